@@ -521,6 +521,7 @@ class MockObservers(_c04.Machine):
             self.paths.append(self._ipath_recipe(ii))
         self.sessions = []
         self.new_id = 0
+        self.last_call = {}
         self.ctx.event('observers:stats=%s,testrec=%s,log=%s' % (
             obs['stats'], obs['testrec'],
             'off' if not obs['log'] else '%s/%s' % obs['log']))
